@@ -311,6 +311,7 @@ class Monitor:
                         'holder': h.spec.get('holder'), 'output under both values': outcome})
         glob = host.global_of(h.spec)
         user = h.user if h.user is not None else {}
+        self.check_callbacks(i, op, h, user, glob, outcome)
         if h.spec.get('holder') == 'Config':
             # a held Config keeps the layers as they were when it was built
             known = self.held.get(op['cfg'])
@@ -332,6 +333,10 @@ class Monitor:
                 return
             self.note_cells(user, glob, t, s)
         random.seed(op.get('pin', 0))
+        # (the host's recorder objects answer as a function of their invocation number: same start for both runs)
+        host.gpeer.begin()
+        if h.peer is not None:
+            h.peer.begin()
         try:
             res = host.emmet.expand(op['abbr'], flat)
             flat_outcome = ['ok', res] if isinstance(res, str) else ['ok-nonstr', repr(res)[:300]]
@@ -343,6 +348,45 @@ class Monitor:
                 'op': op, 'type': t, 'syntax': s,
                 'expand(abbr, user, global)': outcome, 'expand(abbr, {merged by the reference model})': flat_outcome,
                 'user': repr({k: user.get(k) for k in SECTIONS if k in user})[:600], 'global': repr(glob)[:800]})
+
+    def check_callbacks(self, i, op, h, user, glob, outcome):
+        """output.field / output.text are option values like any other: the callable that is consulted must be
+        the very object the most specific defining layer holds (the caller's callbacks are stateful editor
+        objects; a copy of them is not them). Observed on the two recorder objects of the host."""
+        run = self.run
+        host = run.host
+        if outcome[0] != 'ok' or not outcome[1]:
+            return
+        if h.spec.get('holder') == 'Config':
+            known = self.held.get(op['cfg'])
+            if known is None or known[0] is not h.instance:
+                return
+            opts = known[1].get('options') or {}
+        else:
+            try:
+                _t, _s, flat = self.flat_config(user, glob)
+            except Exception:  # noqa
+                return
+            if flat is None:
+                return
+            opts = flat.get('options') or {}
+        owners = []
+        for key in ('output.text', 'output.field'):
+            fn = opts.get(key)
+            owner = getattr(fn, '__self__', None)
+            if owner is host.gpeer or (h.peer is not None and owner is h.peer):
+                owners.append((key, owner))
+        if not owners:
+            return
+        run.count('c20:callback-options-checked')
+        if not any(owner.n > 0 for _k, owner in owners):
+            who = 'the call config' if owners[0][1] is h.peer else 'the global config'
+            run.violate('C20', 'precedence', 'callback-option-not-consulted', i, {
+                'abbr': op['abbr'], 'cfg': op['cfg'], 'holder': h.spec.get('holder'), 'entry': op.get('entry', 'expand'),
+                'what': 'the output.text / output.field callables that %s defines (and that the layered merge makes effective) '
+                        'were not invoked once while a non-empty result was produced: the library consulted something else '
+                        '(a copy, a default, another layer)' % who,
+                'result': outcome[1][:200]})
 
     def finish(self):
         return sorted(self.cells)
